@@ -238,6 +238,75 @@ def fallback_gen(rng):
     return pg
 
 
+def chain_gen(rng):
+    """`||` chains of three and four alternatives — at top level, in a group, inside a word, behind a definition — whose
+    candidates share their first letters, so that a typed prefix is extended by candidates of several levels"""
+    stems = rng.choice([["fast", "fair", "fine", "far"], ["alpha", "all", "also", "ax"], ["m1", "m2", "m3", "m4"]])
+    n = rng.choice([3, 3, 4])
+    alts = [("lit", x, None) for x in stems[:n]]
+    outputs = {}
+    if rng.random() < 0.3:
+        outputs[0] = stems[0][0] + "cmd1\n" + stems[0][0] + "cmd2\n"
+        alts[rng.randrange(n)] = ("cmd", '__probe 0 "$1" "$2"')
+    if rng.random() < 0.3:
+        i = rng.randrange(n)
+        alts[i] = ("alt", [alts[i], ("lit", stems[0][0] + "zz", None)])
+    chain = ("fb", alts)
+    shape = rng.randrange(4)
+    defs = []
+    if shape == 0:
+        variants = [("seq", [("lit", "mode", None), chain, ("lit", "end", None)])]
+        ws, pre = ["mode"], ""
+    elif shape == 1:
+        variants = [("seq", [chain, ("lit", "end", None)])]
+        ws, pre = [], ""
+    elif shape == 2:
+        variants = [("seq", [("sub", [("lit", "--speed=", None), chain]), ("lit", "end", None)])]
+        ws, pre = [], "--speed="
+    else:
+        defs = [("LEVEL", None, chain)]
+        variants = [("seq", [("lit", "pick", None), ("nt", "LEVEL"), ("lit", "done", None)])]
+        ws, pre = ["pick"], ""
+    pg = ProbeGrammar(rng, variants, defs, outputs)
+    pg.extra_words = [(ws, pre + x) for x in stems[:n]] + [(ws, pre + stems[0][0])]
+    return pg
+
+
+def shape_clash_gen(rng):
+    """two *different* within-word expressions whose tables contain the same numbers in the same order once section and
+    level boundaries are forgotten: a literal-only word next to a command word (the command's number equal to the
+    literal's), the same command under `||` in swapped order — candidates for wrongly sharing one table-reading function"""
+    outputs = {0: "k0\n", 1: rng.choice(["k1\n", "kc\nkd\n"])}
+    c0, c1 = '__probe 0 "$1" "$2"', '__probe 1 "$1" "$2"'
+    x, y = rng.sample(["x", "y", "v1", "w"], 2)
+    shape = rng.randrange(4)
+    if shape == 0:
+        variants = [("seq", [("cmd", c0), ("alt", [("sub", [("lit", "p=", None), ("opt", ("lit", x, None))]),
+                                                  ("sub", [("lit", "q=", None), ("opt", ("cmd", c1))])])])]
+        extra = [(["k0"], "p="), (["k0"], "q="), (["k0"], "p=" + x), (["k0", "p=k1"], "")]
+    elif shape == 1:
+        variants = [("alt", [("sub", [("lit", "p=", None), ("fb", [("lit", x, None), ("cmd", c1)])]),
+                             ("sub", [("lit", "q=", None), ("fb", [("cmd", c1), ("lit", y, None)])])])]
+        extra = [([], "p="), ([], "q="), ([], "p=k"), ([], "q=k")]
+    elif shape == 2:
+        variants = [("seq", [("cmd", c0), ("alt", [("sub", [("lit", "p=", None), ("alt", [("lit", x, None), ("lit", y, None)])]),
+                                                  ("sub", [("lit", "q=", None), ("alt", [("lit", x, None), ("cmd", c1)])])])])]
+        extra = [(["k0"], "p="), (["k0"], "q="), (["k0"], "q=k")]
+    else:
+        variants = [("alt", [("seq", [("lit", "one", None), ("sub", [("lit", "p=", None), ("fb", [("lit", x, None), ("lit", y, None), ("cmd", c1)])])]),
+                             ("seq", [("lit", "two", None), ("sub", [("lit", "q=", None), ("fb", [("lit", x, None), ("cmd", c1), ("lit", y, None)])])])])]
+        extra = [(["one"], "p="), (["two"], "q="), (["one"], "p=k"), (["two"], "q=k")]
+    if shape not in (0, 2):
+        outputs = {1: outputs[1]}
+        # probe numbers must be dense from 0 for the probe table: renumber
+        outputs = {0: outputs[1]}
+        ren = lambda e: ("cmd", c0) if e[0] == "cmd" else e
+        variants = [gen.map_tree(ren, v) for v in variants]
+    pg = ProbeGrammar(rng, variants, [], outputs)
+    pg.extra_words = extra
+    return pg
+
+
 def vocabulary(pg):
     """literal texts, command candidates, and a few foreign / glob-looking words"""
     lits = []
